@@ -23,6 +23,7 @@ class Checker:
         self.explanation = ""
         self.notes = []
         self.exhaustive_tables = 0
+        self.tag = ""   # current config tag; part of instance keys, never of violation keys
         kf = os.path.join(VERIF, "known_findings.json")
         self.known = []
         if os.path.exists(kf):
@@ -33,8 +34,10 @@ class Checker:
     def rule(self, rid, desc, floor=0):
         self.rules[rid] = dict(desc=desc, floor=floor, n=0, nontrivial=0)
 
-    def ok(self, rid, key, detail=None, nontrivial=True, fn=None):
-        """Record one examined rule instance that held."""
+    def ok(self, rid, key, detail=None, nontrivial=True, fn=None, tag=""):
+        """Record one examined rule instance that held. `tag` (e.g. the config) distinguishes instances
+        without becoming part of violation keys."""
+        key = key + (tag or self.tag)
         r = self.rules[rid]
         r["n"] += 1
         if nontrivial:
@@ -45,12 +48,15 @@ class Checker:
         if detail is not None and len([s for s in self.samples if s["rule"] == rid]) < 3:
             self.samples.append(dict(rule=rid, instance=key, detail=detail))
 
-    def bad(self, rid, key, where, msg, fn=None):
-        """Record a violating instance. key must be stable (no line numbers)."""
+    def bad(self, rid, key, where, msg, fn=None, tag=""):
+        """Record a violating instance. key must be stable (no line numbers, no config tag)."""
         r = self.rules[rid]
         r["n"] += 1
         r["nontrivial"] += 1
-        self.instances.append((rid, key, True))
+        tag = tag or self.tag
+        self.instances.append((rid, key + tag, True))
+        if tag:
+            where = "%s %s" % (where, tag)
         if fn:
             self.functions.add(fn)
         self.violations.append(dict(rule=rid, key="%s:%s" % (rid, key), where=where, msg=msg))
@@ -84,10 +90,16 @@ class Checker:
                 seen_known.append(v)
             else:
                 real.append(v)
+        printed = set()
         for v in seen_known:
             k = known_keys[v["key"]]
+            if v["key"] in printed:
+                continue
+            printed.add(v["key"])
             print("KNOWN-FINDING: property=%s %s [%s at %s]" % (self.prop, k["what"], v["key"], v["where"]))
-        evdir = os.path.join(VERIF, "evidence")
+        # evidence of runs against a scratch copy (selftest, seeded changes) never overwrites the real one
+        scratch = os.environ.get("VERIF_REPO", "/repo") != "/repo"
+        evdir = os.path.join(VERIF, ".cache/evidence-scratch" if scratch else "evidence")
         os.makedirs(evdir, exist_ok=True)
         vio_path = os.path.join(evdir, "%s.violations.json" % self.prop)
         if real:
